@@ -540,3 +540,172 @@ Section Wrap.
       unfold append_one in H. destruct (Nat.eqb _ 0); cbn in H; [eauto|discriminate].
   Qed.
 End Wrap.
+
+(* ================= 6. deprecated spelling: commonLabels vs labels[{pairs, includeSelectors: true}] ================= *)
+
+(* FixKustomizationPreMarshalling: commonLabels becomes one more `labels` entry with includeSelectors, placed
+   AFTER the existing entries (the configurator runs the labels entries first, then the commonLabels pass) *)
+Definition respell (d : pdirs) : pdirs :=
+  match pd_common_labels d with
+  | [] => d
+  | cl => mkPDirs (pd_ns d) (pd_prefix d) (pd_suffix d)
+                  (pd_labels d ++ [Labels.mkLD cl true false []]) []
+                  (pd_common_annos d) (pd_cmgens d) (pd_secgens d)
+  end.
+
+(* rewrite the layers selected by [which] (by directory name), anywhere in the tree *)
+Fixpoint respell_tree (which : string -> bool) (t : ptree) : ptree :=
+  match t with
+  | PFile docs => PFile docs
+  | PDir n d ents => PDir n (if which n then respell d else d) (map (respell_tree which) ents)
+  end.
+
+Lemma mapM_app {A B} (f : A -> res B) l1 l2 :
+  mapM f (l1 ++ l2) = do a <- mapM f l1; do b <- mapM f l2; Ok (a ++ b)%list.
+Proof.
+  induction l1 as [|x t IH]; cbn [mapM app bind].
+  - destruct (mapM f l2); reflexivity.
+  - destruct (f x) as [y| | |]; cbn [bind]; try reflexivity. rewrite IH.
+    destruct (mapM f t) as [a| | |]; cbn [bind]; try reflexivity.
+    destruct (mapM f l2) as [b| | |]; cbn [bind]; reflexivity.
+Qed.
+
+Lemma common_entry_fs cl :
+  Labels.label_fs LabelsDefaults.default_tc (Labels.mkLD cl true false []) = Ok gen_common_labels_fs.
+Proof. vm_compute. reflexivity. Qed.
+
+Section Respell.
+  Variable nonstr : string -> bool.
+
+  Lemma label_transforms_app l1 l2 : forall m,
+    label_transforms nonstr (l1 ++ l2) m =
+    do x <- label_transforms nonstr l1 m;
+    match l1 with [] => label_transforms nonstr l2 x | _ => label_transforms nonstr l2 x end.
+  Proof.
+    induction l1 as [|[p fss] t IH]; intros m; [reflexivity|].
+    cbn [app label_transforms]. destruct (label_transform nonstr p fss m) as [m'| | |]; cbn [bind]; try reflexivity.
+    rewrite IH. destruct (label_transforms nonstr t (drop_empties m')); cbn [bind]; try reflexivity.
+    destruct t; reflexivity.
+  Qed.
+
+  Lemma label_transforms_dropped l : forall m x,
+    l <> [] -> label_transforms nonstr l m = Ok x -> drop_empties x = x.
+  Proof.
+    induction l as [|[p fss] t IH]; intros m x Hne H; [congruence|].
+    cbn [label_transforms] in H. destruct (label_transform nonstr p fss m) as [m'| | |]; cbn [bind] in H; try discriminate.
+    destruct t as [|e t']; [cbn in H; inv H; apply drop_empties_idem|].
+    eapply IH; [discriminate|exact H].
+  Qed.
+
+  (* the label transformers configured for the two spellings *)
+  Lemma label_transformers_respell d cl0 clt :
+    pd_common_labels d = cl0 :: clt ->
+    Labels.label_transformers LabelsDefaults.default_tc (label_dirs (respell d)) =
+    do l <- Labels.label_transformers LabelsDefaults.default_tc (label_dirs d);
+    Ok (l ++ [([], gen_common_labels_fs)])%list.
+  Proof.
+    intros E. unfold respell. rewrite E. unfold label_dirs, Labels.label_transformers.
+    cbn [Labels.d_labels Labels.d_common_labels pd_labels pd_common_labels pd_common_annos].
+    rewrite E.
+    destruct (pd_labels d ++ [Labels.mkLD (cl0 :: clt) true false []])%list as [|e0 et] eqn:EL;
+      [destruct (pd_labels d); discriminate|]. rewrite <- EL. clear EL e0 et.
+    rewrite mapM_app. cbn [mapM]. rewrite common_entry_fs. cbn [bind Labels.ld_pairs].
+    destruct (pd_labels d) as [|l0 lt] eqn:EP.
+    - cbn [mapM bind app]. reflexivity.
+    - destruct (mapM _ (l0 :: lt)) as [a| | |]; cbn [bind]; try reflexivity.
+  Qed.
+
+  Lemma run_kind_respell k d m : run_kind nonstr k (respell d) m = run_kind nonstr k d m.
+  Proof.
+    destruct (pd_common_labels d) as [|cl0 clt] eqn:E; [unfold respell; rewrite E; reflexivity|].
+    unfold run_kind.
+    destruct (String.eqb k "NamespaceTransformer"); [unfold respell; rewrite E; reflexivity|].
+    destruct (String.eqb k "PrefixTransformer"); [unfold respell; rewrite E; reflexivity|].
+    destruct (String.eqb k "SuffixTransformer"); [unfold respell; rewrite E; reflexivity|].
+    destruct (String.eqb k "LabelTransformer").
+    - rewrite (label_transformers_respell d cl0 clt E).
+      destruct (Labels.label_transformers LabelsDefaults.default_tc (label_dirs d)) as [l| | |] eqn:EL;
+        cbn [bind]; try reflexivity.
+      rewrite label_transforms_app.
+      destruct (label_transforms nonstr l m) as [x| | |] eqn:EX; cbn [bind]; try reflexivity.
+      assert (Hne : l <> []).
+      { intros ->. unfold Labels.label_transformers, label_dirs in EL.
+        cbn [Labels.d_labels Labels.d_common_labels] in EL. rewrite E in EL.
+        assert (G : forall (F : Labels.label_dir -> res (pairs * list fieldspec)) ls y,
+                   (do l <- mapM F ls; Ok (l ++ [y])%list) = Ok [] -> False).
+        { intros F ls y H. destruct (mapM F ls) as [a| | |]; cbn [bind] in H; try discriminate.
+          destruct a; discriminate. }
+        destruct (pd_labels d); exact (G _ _ _ EL). }
+      assert (Y : label_transforms nonstr [([], gen_common_labels_fs)] x = Ok x).
+      { cbn. now rewrite (label_transforms_dropped l m x Hne EX). }
+      destruct l; [congruence|exact Y].
+    - destruct (String.eqb k "AnnotationsTransformer"); [unfold respell; rewrite E; reflexivity|reflexivity].
+  Qed.
+
+  Lemma run_order_respell ks d : forall m, run_order nonstr ks (respell d) m = run_order nonstr ks d m.
+  Proof.
+    induction ks as [|k t IH]; intros m; [reflexivity|].
+    cbn [run_order]. rewrite run_kind_respell. destruct (run_kind nonstr k d m); cbn [bind]; auto.
+  Qed.
+
+  Lemma run_transformers_respell d m : run_transformers nonstr (respell d) m = run_transformers nonstr d m.
+  Proof.
+    unfold run_transformers. rewrite run_order_respell.
+    destruct (pd_common_labels d) as [|cl0 clt] eqn:E; [unfold respell; rewrite E; reflexivity|].
+    rewrite (label_transformers_respell d cl0 clt E).
+    destruct (Labels.label_transformers LabelsDefaults.default_tc (label_dirs d)); reflexivity.
+  Qed.
+
+  Lemma run_generators_respell d m : run_generators (respell d) m = run_generators d m.
+  Proof.
+    destruct (pd_common_labels d) as [|cl0 clt] eqn:E; unfold respell; rewrite E; [reflexivity|].
+    unfold run_generators. generalize gen_generator_order. intros ks. revert m.
+    induction ks as [|k t IH]; intros m; [reflexivity|].
+    cbn [run_generator_kinds pd_cmgens pd_secgens].
+    destruct (String.eqb k "ConfigMapGenerator").
+    - destruct (run_gens false (pd_cmgens d) m); cbn [bind]; auto.
+    - destruct (String.eqb k "SecretGenerator").
+      + destruct (run_gens true (pd_secgens d) m); cbn [bind]; auto.
+      + cbn [bind]. auto.
+  Qed.
+
+  Lemma is_empty_respell d ents : is_empty_kust (respell d) ents = is_empty_kust d ents.
+  Proof.
+    destruct (pd_common_labels d) as [|cl0 clt] eqn:E; unfold respell; rewrite E; [reflexivity|].
+    destruct ents; [|reflexivity]. unfold is_empty_kust, dirs_empty.
+    cbn [pd_ns pd_prefix pd_suffix pd_labels pd_common_labels pd_common_annos pd_cmgens pd_secgens].
+    rewrite E. destruct (pd_labels d); cbn [app]; rewrite ?andb_false_r; reflexivity.
+  Qed.
+
+  Lemma accumulate_respell which t : accumulate nonstr (respell_tree which t) = accumulate nonstr t.
+  Proof.
+    induction t as [docs|n d ents IH] using ptree_ind'; [reflexivity|].
+    cbn [respell_tree]. rewrite !accumulate_dir.
+    assert (E1 : is_empty_kust (if which n then respell d else d) (map (respell_tree which) ents) = is_empty_kust d ents).
+    { destruct (which n); [rewrite is_empty_respell|]; destruct ents; reflexivity. }
+    rewrite E1. destruct (is_empty_kust d ents); [reflexivity|].
+    rewrite acc_list_map. rewrite (acc_list_ext _ (accumulate nonstr) ents) by exact IH.
+    destruct (acc_list (accumulate nonstr) ents []) as [m0| | |]; cbn [bind]; try reflexivity.
+    destruct (which n); [|reflexivity].
+    rewrite run_generators_respell. destruct (run_generators d m0); cbn [bind]; try reflexivity.
+    apply run_transformers_respell.
+  Qed.
+
+  (* PIPE_deprecated_spellings *)
+  Theorem build_respell which o t : build nonstr o (respell_tree which t) = build nonstr o t.
+  Proof.
+    destruct t as [docs|n d ents]; [reflexivity|].
+    unfold build. change (respell_tree which (PDir n d ents))
+      with (PDir n (if which n then respell d else d) (map (respell_tree which) ents)).
+    cbv beta iota.
+    change (PDir n (if which n then respell d else d) (map (respell_tree which) ents))
+      with (respell_tree which (PDir n d ents)).
+    rewrite accumulate_respell. reflexivity.
+  Qed.
+End Respell.
+
+(* non-vacuity: the rewrite changes the kustomization *)
+Example respell_example :
+  respell (mkPDirs "" "" "" [] [("app", "x")] [] [] []) =
+  mkPDirs "" "" "" [Labels.mkLD [("app", "x")] true false []] [] [] [] [].
+Proof. reflexivity. Qed.
